@@ -210,11 +210,10 @@ const char *varintAdaptiveEncodingName(varintAdaptiveEncodingType type);
  * Returns: maximum bytes needed (worst-case scenario)
  */
 static inline size_t varintAdaptiveMaxSize(size_t count) {
-    if (count == 0) {
-        return 1; /* Just header byte */
-    }
-
-    /* Worst case over every encoding EncodeWith can be asked for (and that
+    /* count == 0 needs no special case: the empty PFOR (4 bytes) and BITMAP
+     * (5 bytes) encodings plus the header byte fit in the constant part.
+     *
+     * Worst case over every encoding EncodeWith can be asked for (and that
      * Encode can select): PFOR when every value is stored as an exception.
      * Header: 1 byte encoding type
      * PFOR:   min (9) + width (1) + count (5, it is a uint32_t)
